@@ -225,8 +225,9 @@ def run(ctx):
                 continue
             for c in rcs_:
                 txt = unparse(symex.expand(c.sub, c.env, depth=5))
-                renders = ('_groupnodecontents_to_text' in txt or 'nodelist_to_text' in txt) and \
-                    'apply_simplify_repl' not in txt
+                # any of the converter's rendering methods (nodelist_to_text, _groupnodecontents_to_text, math_node_to_text,
+                # node_to_text, ...) applied on the way to the result
+                renders = '_to_text(' in txt and 'apply_simplify_repl' not in txt
                 if not renders:
                     continue
                 found += 1
@@ -466,11 +467,14 @@ def _skipped_comments_kept(ctx, repo):
     em = repo.mod('pylatexenc.latexnodes.parsers._expression')
     n = 0
     for q, f in sorted(em.functions.items()):
-        accs = [st for st in iter_own(f) if isinstance(st, ast.AugAssign) and isinstance(st.target, ast.Name)
+        accs = [st.target.id for st in iter_own(f) if isinstance(st, ast.AugAssign) and isinstance(st.target, ast.Name)
                 and any(isinstance(x, ast.Attribute) and x.attr == 'skipped_nodes' for x in ast.walk(st.value))]
+        accs += [call_recv(c).id for c in iter_own(f) if isinstance(c, ast.Call) and call_name(c) in ('extend', 'append')
+                 and isinstance(call_recv(c), ast.Name) and any(
+                     isinstance(x, ast.Attribute) and x.attr == 'skipped_nodes' for a in c.args for x in ast.walk(a))]
         if not accs:
             continue
-        acc = accs[0].target.id
+        acc = accs[0]
         # lists built from the accumulator
         derived = {acc}
         for st in iter_own(f):
